@@ -117,6 +117,26 @@ func (r *Run) Violate(v Violation) {
 	r.violations = append(r.violations, v)
 }
 
+// NewViolationCount counts violations that are not listed as open known findings.
+func (r *Run) NewViolationCount() int {
+	r.mu.Lock()
+	defer r.mu.Unlock()
+	known := loadKnown()
+	n := 0
+	for _, v := range r.violations {
+		m := false
+		for _, k := range known {
+			if k.Property == r.Property && k.Status == "open" && strings.HasPrefix(v.Sig, k.Match) {
+				m = true
+			}
+		}
+		if !m {
+			n++
+		}
+	}
+	return n
+}
+
 func (r *Run) ViolationCount() int { r.mu.Lock(); defer r.mu.Unlock(); return len(r.violations) }
 
 func loadKnown() []knownFinding {
